@@ -50,7 +50,7 @@ pub fn check_case(ctx: &Ctx, tcs: &[String], cfg: &Cfg) {
             json!({"escaped": a.iter().map(|(k, v)| format!("U+{k:04X}x{v}")).collect::<Vec<_>>(), "unescaped": b.iter().map(|(k, v)| format!("U+{k:04X}x{v}")).collect::<Vec<_>>(), "unescaped_output": plain_out})));
     }
     // textual decoding of the escapes gives a pattern with the same language as the unescaped build
-    if let Ok(dec) = lang::decode_escapes(&repaired) {
+    if let Ok(dec) = lang::decode_escapes_opt(&repaired, cfg.has(X)) {
         match (full_hir(&dec, cfg), full_hir(&plain_nc, &plain_cfg)) {
             (Ok(hd), Ok(hp)) => match leq(&ctx.run, &hd, &hp) {
                 Ok(None) => {}
